@@ -251,6 +251,8 @@ func replayMain(args []string) {
 					genHugePool(g, rr, "thorough")
 				case "bulk-pool":
 					genBulkPool(g, rr, "quick")
+				case "concurrent-pool":
+					genConcurrentPool(g, rr, "quick")
 				case "huge-length":
 					genHugeLength(g, rr, "thorough")
 				case "giant-buffer":
